@@ -331,7 +331,7 @@ Next ==
     \/ \E i \in Ids, ip \in BOOLEAN : MergeFracRefused(i, ip)
     \/ \E i, k \in Ids, t \in MinFreqs, ip \in BOOLEAN : MergeMinFreq(i, t, ip, k)
     \/ \E k \in Ids : Drop(k)
-    \/ \E i \in Ids, ix \in -6..5, lo, hi \in EdgeVals, num \in 0..MaxVal : GetBin(i, ix, lo, hi, num)
+    \/ \E i \in Ids, ix \in -6..5, lo, hi \in EdgeVals, num \in (IF On("GetBin") THEN 0..MaxVal ELSE {}) : GetBin(i, ix, lo, hi, num)
     \/ \E i, k \in Ids, idx \in TakeArgs, how \in {"mask", "array", "list"} : Take(i, idx, how, k)
     \/ \E i, k \in Ids, idx \in TakeArgs : TakeUnsorted(i, idx, k)
     \/ \E i \in Ids, what \in {"neg_step", "mask_short", "mask_long", "int_high", "int_low", "array_high"} : IndexRefused(i, what)
